@@ -108,8 +108,20 @@ type vsCase struct {
 	// a request is only submitted when every earlier one has finished and nothing is loaded (load / unload cycles)
 	// probability of finishing a request that holds a runner exactly while the pending loop is between needsReload
 	// and the hand-over for another request
-	FinishHot  float64 `json:"finish_hot"`
-	Sequential bool    `json:"sequential"`
+	FinishHot float64 `json:"finish_hot"`
+	// probability of letting the keep-alive of an idle runner elapse exactly while the pending loop stands between its
+	// lookup and the hand-over of that runner to the next request; the completed loop is then advanced a random number
+	// of steps into the handling of the expired event before the pending loop goes on
+	ExpireHot float64 `json:"expire_hot"`
+	// probability (per choice) of finishing a request that holds a runner
+	FinishEarly float64 `json:"finish_early"`
+	// with sequential: the next request is submitted as soon as every earlier one has finished and no scheduler
+	// goroutine can move (the runner stays loaded, idle, its keep-alive timer armed)
+	// every request carries use_mmap with this value in a pointer of its own (equal options in distinct allocations); "" = not set
+	MMap       string `json:"mmap"`
+	SeqKeep    bool   `json:"seq_keep"`
+	NoTicks    bool   `json:"no_ticks"` // no random passage of time (only what the steering asks for)
+	Sequential bool   `json:"sequential"`
 	// admission stage: every GetRunner call runs in its own controlled goroutine, so that the calls of several
 	// submitters interleave at the synchronisation operations inside GetRunner; hold_sched = probability with which the
 	// pending loop is kept parked while anything else can happen (the queue is not being drained)
@@ -279,6 +291,8 @@ type vsRun struct {
 	names   []string
 	waitCtx map[*vhG]context.Context
 	fhState int // finish_hot steering
+	ehState int // expire_hot steering
+	ehSteps int
 }
 
 func (r *vsRun) ev(a ...any) {
@@ -573,6 +587,10 @@ func (r *vsRun) submit(q int) {
 	opts := api.DefaultOptions()
 	opts.NumCtx = spec.Ctx
 	opts.NumGPU = spec.NGpu
+	if r.c.MMap != "" {
+		b := r.c.MMap == "true"
+		opts.UseMMap = &b
+	}
 	m := *r.models[spec.M]
 	if spec.Adapter > 0 {
 		m.AdapterPaths = []string{"ad" + strconv.Itoa(spec.Adapter)}
@@ -591,6 +609,9 @@ func (r *vsRun) submit(q int) {
 		// GetRunner, reply select); the handler keeps the returned runner until the harness cancels ctx
 		name := r.names[spec.M]
 		reqOpts := map[string]any{"num_ctx": float64(spec.Ctx), "num_gpu": float64(spec.NGpu)}
+		if r.c.MMap != "" {
+			reqOpts["use_mmap"] = r.c.MMap == "true"
+		}
 		go func() {
 			ll, _, _, err := r.srv.scheduleRunner(ctx, name, []model.Capability{model.CapabilityCompletion}, reqOpts, ka)
 			rs.replies++
@@ -865,6 +886,69 @@ func (r *vsRun) randomChoice() (vsChoice, bool) {
 	c := r.c
 	all := r.internalOpts()
 	ints := all
+	if c.FinishEarly > 0 && r.ehState == 0 && r.rng.Float64() < c.FinishEarly {
+		for q, rs := range r.reqs {
+			if rs.submitted && !rs.cancelled && rs.replies > 0 {
+				return vsChoice{A: "cancel", Q: q}, true
+			}
+		}
+	}
+	if c.ExpireHot > 0 {
+		var pOpt, cOpt *vsOpt
+		for i := range all {
+			g := all[i].g
+			if strings.HasPrefix(g.Name, "Run.go1#") && (g.Site == "needsReload.lock1" || g.Site == "mock.ping" || g.Site == "useLoadedRunner.lock1") {
+				pOpt = &all[i]
+			}
+			if strings.HasPrefix(g.Name, "Run.go2#") && cOpt == nil {
+				cOpt = &all[i]
+			}
+		}
+		switch r.ehState {
+		case 0:
+			if pOpt != nil && pOpt.g.Site == "needsReload.lock1" && r.rng.Float64() < c.ExpireHot {
+				for _, ru := range r.s.loaded {
+					if ru.expireTimer != nil && ru.refCount == 0 {
+						if d := vsDur(ru.sessionDuration); d >= 0 && d <= 2000 {
+							r.ehState, r.ehSteps = 1, 1+r.rng.Intn(5)
+							return vsChoice{A: "tick", Ms: d + 1}, true
+						}
+					}
+				}
+			}
+		case 1: // the timer callback queues the expired event
+			if pOpt == nil {
+				r.ehState = 0
+			} else if len(r.s.expiredCh) > 0 {
+				r.ehState = 2
+			} else {
+				moved := false
+				for _, o := range all {
+					if !strings.HasPrefix(o.g.Name, "Run.go1#") && !strings.HasPrefix(o.g.Name, "Run.go2#") && o.g.Kind != "env" {
+						moved = true
+						return o.c, true
+					}
+				}
+				if !moved {
+					r.ehState = 0
+				}
+			}
+		}
+		if r.ehState == 2 { // the completed loop goes some steps into the expired branch
+			if pOpt == nil || cOpt == nil || r.ehSteps == 0 {
+				r.ehState = 3
+			} else {
+				r.ehSteps--
+				return cOpt.c, true
+			}
+		}
+		if r.ehState == 3 { // the pending loop hands the runner out
+			if pOpt != nil {
+				return pOpt.c, true
+			}
+			r.ehState = 0
+		}
+	}
 	if c.FinishHot > 0 {
 		// steer towards: the last holder's finish is processed (refCount 0, expired event queued) while the pending
 		// loop stands between needsReload and the hand-over for the next request, which then takes the runner
@@ -987,6 +1071,9 @@ func (r *vsRun) randomChoice() (vsChoice, bool) {
 		if !rs.submitted {
 			if c.Sequential {
 				busy := len(r.s.loaded) > 0
+				if c.SeqKeep {
+					busy = len(all) > 0
+				}
 				for _, o := range r.reqs {
 					if o.submitted && !o.cancelled {
 						busy = true
@@ -1028,7 +1115,7 @@ func (r *vsRun) randomChoice() (vsChoice, bool) {
 		env = append(env, vsChoice{A: "expire", M: r.rng.Intn(len(r.models))})
 		w = append(w, wapi)
 	}
-	if r.ticks < 12 {
+	if r.ticks < 12 && !c.NoTicks {
 		ds := []int64{1, 5, 10, 10, 250, 1000, 300000}
 		env = append(env, vsChoice{A: "tick", Ms: ds[r.rng.Intn(len(ds))]})
 		w = append(w, 1.5)
